@@ -739,7 +739,8 @@ impl World {
                     let mut arena = self.arena.take().unwrap();
                     let this: &World = &self;
                     let r = guarded("finalize", || -> VResult {
-                        if let Some(ma) = arena.finish_marking() {
+                        #[allow(unused_mut)]
+                        if let Some(mut ma) = arena.finish_marking() {
                             ma.finalize(|fc, root| {
                                 let m = this.locate(root)?;
                                 c03_body(this, fc, &m, d0, f0)
